@@ -8,10 +8,10 @@ CONSTANTS
   r2 = r2
   r3 = r3
   NoTarget = NoTarget
-  Cmds <- MCCmds
-  Group <- MCGroupS
+  Cmds <- MCCmds3
+  Group <- MCGroup3s
   Reqs = {r1, r2}
-  Kinds = {"plain", "forever", "upgrade"}
+  Kinds = {"plain", "forever"}
   MaxProbes = 1
   AllowBad = FALSE
   SignalAfterNotify = TRUE
